@@ -182,6 +182,13 @@ Outer:
 			return err
 		}
 		update = update[backup:]
+		if len(update) == 0 {
+			// ptr returns nil for a zero length: there is nothing to roll
+			// over. This happens when the receiver sent block checksums for
+			// a file that is empty on our side (or a block length of 0);
+			// whatever is left goes out as literal data below.
+			break
+		}
 
 		s1 -= rsyncchecksum.SignExtend(update[0])
 		s2 -= uint32(k) * rsyncchecksum.SignExtend(update[0])
